@@ -414,6 +414,19 @@ def r6(ctx, cfg):
             ctx.ob(R, key, "answer-is-the-window's-value-under-the-key", not bad,
                    "query_raw can answer %s without having looked the key up in the contract's window" % bad, fn=f,
                    sample="Binary::from(window.get(key).unwrap_or_default())")
+        else:
+            # the dump lists the whole window: one unbounded range over it (both bounds None), nothing filtered or cut,
+            # and the collected range is the answer
+            from rules.C01 import DENY_ADAPTERS
+            rg = [(b, t) for b, t in reads if t["callee"]["name"] == "range"]
+            okd = len(rg) == 1 and len(reads) == 1
+            if okd:
+                a = P.call_args(f, rg[0][1], rg[0][0])
+                okd = all(peel(x)[0] == "agg" and peel(x)[1].endswith("Option::None") for x in a[1:3])
+            cut = [t["callee"]["name"] for g in F.lexical(key) for b, t in g.calls() if t["callee"]["name"] in DENY_ADAPTERS and not t["callee"]["local"]]
+            okd = okd and not cut and contains(P.ret(f), lambda x: x[0] == "call" and x[1] == "cosmwasm_std::Storage::range")
+            ctx.ob(R, key, "dump-is-the-whole-window", okd, "dump_wasm_raw does not answer range(None, None, ..) of the contract's window, unfiltered (%s)" % (cut or "bounds"), fn=f,
+                   sample="window.range(None, None, Ascending).collect()")
     for key, callee, stmut in (("app::App::contract_storage", "wasm::Wasm::contract_storage", False),
                                ("app::App::contract_storage_mut", "wasm::Wasm::contract_storage_mut", True)):
         f = ctx.need_fn(R, key)
